@@ -205,6 +205,7 @@ def trace_check(ctx, focus, total, tag, agg, race=False, chunk=250, runner=None,
         if nev == 0:
             continue
         ok, rej, r = validate_joe_trace(ctx, tr, "%s%d" % (tag, i))
+        count_actions(tr, agg)
         agg["events"] += nev
         agg["scenarios"] += nsc
         agg["traces"] += 1
@@ -235,6 +236,36 @@ def trace_check(ctx, focus, total, tag, agg, race=False, chunk=250, runner=None,
                 with open(rest, "w") as f:
                     f.write("\n".join(lines[b:]) + "\n")
                 traces.append(rest)
+
+
+def count_actions(trace, agg):
+    """How often each action of Joe.tla (with its outcome argument) was taken by the real code in the validated traces:
+    an action that never shows was not exercised (vacuity check, reported in the evidence)."""
+    ac = agg.setdefault("actions", {})
+    with open(trace) as f:
+        for line in f:
+            try:
+                e = json.loads(line)
+            except ValueError:
+                continue
+            k = e.get("e")
+            if k in ("reset", None):
+                continue
+            if "v" in e:
+                k += "=" + str(e["v"])
+            elif "ok" in e:
+                k += "=" + ("ok" if e["ok"] else "fail")
+            elif "present" in e:
+                k += "=" + ("present" if e["present"] else "absent")
+            ac[k] = ac.get(k, 0) + 1
+
+
+ALL_ACTIONS = ["call.sub", "sub.s1.closed", "sub.s2.done=nil", "sub.s2.done=err", "sub.s3.done=nil", "sub.s3.done=err", "sub.s4.done=nil", "sub.s4.done=err",
+               "sub.s2.ctx", "cancel", "ret.sub=nil", "ret.sub=err", "ret.sub=closed", "loop.select", "loop.sub", "rbegin", "send=ok", "send=fail",
+               "flush=ok", "flush=fail", "rend=nil", "rend=err", "rend=replayerr", "rend=panic", "loop.subfail=err", "loop.register", "loop.msg",
+               "put=ok", "put=err", "put=panic", "loop.reply.err", "loop.reply", "loop.fail=err", "loop.remove=present", "loop.remove=absent",
+               "loop.unsub", "loop.done", "loop.exit", "call.pub", "pub.closed", "ret.pub=nil", "ret.pub=puterr", "ret.pub=closed", "call.down",
+               "down.pre", "down.ok", "down.recovered", "down.closed", "down.ctx", "ret.down=nil", "ret.down=closed", "ret.down=ctx"]
 
 
 def classify(rej):
@@ -387,6 +418,8 @@ def joe_evidence(ctx, agg, rule, assumptions):
         "rule": rule, "exhaustive": False,
         "model_checking": agg["mc"], "trace_events_validated": agg["events"], "process_crashes": agg["crashes"],
         "steered_behaviours": agg.get("steer", {}),
+        "actions_taken_by_the_real_code": dict(sorted(agg.get("actions", {}).items())),
+        "actions_never_taken": [a for a in ALL_ACTIONS if a not in agg.get("actions", {})],
     }
     core.write_evidence(ctx, "model_checking", cov, [
         "the model checking is exhaustive for the stated small configurations only; the real Joe is observed under seeded schedules (GOMAXPROCS 1/2/16, random yields in every hook), which sample the interleavings",
